@@ -43,7 +43,7 @@ METHODISH = ("method", "inherited")
 class Rig:
     """One decorated function + callbacks for (sig, req)."""
 
-    def __init__(self, sig, req, dreq=None, flavour="func"):
+    def __init__(self, sig, req, dreq=None, flavour="func", cb_kwonly=False):
         import icontract
 
         self.flavour = flavour
@@ -72,6 +72,9 @@ class Rig:
         for role in ("pre", "cap", "post", "errpre", "errpost"):
             dn = set(self.dreq.get(role, []))
             names = [n for n in req[role] if n not in dn] + ["%s=CBDEF" % n for n in req[role] if n in dn]
+            if cb_kwonly and names:
+                # the callback asks for (all but its first) values through KEYWORD-ONLY parameters
+                names = names[:1] + ["*"] + names[1:] if len(names) > 1 else ["*"] + names
             src.append("def %s(%s):\n    return CB(%r, locals())\n" % (role, ", ".join(names), role))
         exec(compile("\n".join(src), "<c05rig>", "exec"), g)
         self.bare = g["f"]
@@ -152,13 +155,13 @@ class _Bound:
         self.arguments = arguments
 
 
-def get_rig(sig, req, dreq=None, flavour="func"):
-    key = core.h64([sig, req, dreq, flavour])
+def get_rig(sig, req, dreq=None, flavour="func", cb_kwonly=False):
+    key = core.h64([sig, req, dreq, flavour, cb_kwonly])
     rig = _cache.get(key)
     if rig is None:
         if len(_cache) > 4000:
             _cache.clear()
-        rig = _cache[key] = Rig(sig, req, dreq, flavour)
+        rig = _cache[key] = Rig(sig, req, dreq, flavour, cb_kwonly)
     return rig
 
 
@@ -208,7 +211,7 @@ def expected_value(name, sig, bound, args, kwargs, rig):
 def run_case(ctx, case):
     sig, shape, req, mode = case["sig"], case["shape"], case["req"], case["mode"]
     dreq = case.get("dreq") or {}
-    rig = get_rig(sig, req, dreq, case.get("flavour", "func"))
+    rig = get_rig(sig, req, dreq, case.get("flavour", "func"), bool(case.get("cb_kwonly")))
     args, kwargs = sigmodel.make_call(sig, shape)
     if case.get("none_args"):
         # None passed EXPLICITLY (it is a value like any other, also where the parameter has another default)
@@ -435,7 +438,7 @@ KNOWN = {
 def replay(ctx, case):
     c = {k: case[k] for k in ("sig", "shape", "req", "mode")}
     c["dreq"] = case.get("dreq")
-    for k in ("flavour", "reenter", "self_kw", "none_args"):
+    for k in ("flavour", "reenter", "self_kw", "none_args", "cb_kwonly"):
         if k in case:
             c[k] = case[k]
     run_case(ctx, c)
@@ -462,6 +465,8 @@ def run(ctx, tier, seed, shard, nshards):
                             do_case(ctx, {"sig": sig, "shape": shape, "req": req, "dreq": dreq, "mode": mode})
                             if vi == 0 and dreq is None:
                                 do_case(ctx, {"sig": sig, "shape": shape, "req": req, "dreq": dreq, "mode": mode, "none_args": True})
+                            if vi == 0:
+                                do_case(ctx, {"sig": sig, "shape": shape, "req": req, "dreq": dreq, "mode": mode, "cb_kwonly": True})
                 # the same signature as `async def` and as a method called on an instance (conditions may ask for self)
                 for flavour in ("async", "method", "inherited"):
                     req = req_variants(sig, flavour)[0]
@@ -528,7 +533,8 @@ def run(ctx, tier, seed, shard, nshards):
             dreq = {r: [n for n in v if n not in ("result", "OLD") and draw(st.booleans())] for r, v in req.items()}
         return {"sig": sig, "shape": shape, "req": req, "dreq": dreq, "mode": draw(st.sampled_from(modes)),
                 "flavour": flavour, "reenter": draw(st.integers(0, 3)) == 0,
-                "self_kw": flavour in METHODISH and draw(st.booleans()), "none_args": draw(st.integers(0, 3)) == 0}
+                "self_kw": flavour in METHODISH and draw(st.booleans()), "none_args": draw(st.integers(0, 3)) == 0,
+                "cb_kwonly": draw(st.integers(0, 3)) == 0}
 
     @given(st_case())
     def test(case):
